@@ -6,7 +6,7 @@ From Coq Require Import ZArith List QArith Qcanon Bool Arith Lia Permutation.
 From SG Require Import Base.QcUtil Base.PolyInt Base.PolyQ Model.Basis Model.BasisPieces
   Proofs.BasisLagrange Proofs.BasisHier Proofs.BasisInterp Proofs.BasisCheck Proofs.BasisTrees
   Proofs.BasisPieces Proofs.BasisRepro Proofs.BasisFlat
-  Model.BasisTree Proofs.BasisTreeP Model.GaussLegendre Proofs.GaussLegendreP.
+  Model.BasisTree Proofs.BasisTreeP Model.GaussLegendre Proofs.GaussLegendreP Proofs.BasisGaussCol.
 Import ListNotations.
 Open Scope Qc_scope.
 
@@ -456,4 +456,63 @@ Example C10_gauss_rule_nonvacuous :
     /\ pintegral [0; 0; 1; 1] (qd 1 2) (qd 2 1) <> 0 /\ snd (fst (hd ((0, 0), 0) rule)) <> 0.
 Proof.
   eexists. eexists. split; [reflexivity|]. split; [apply gl2_exact; simpl; lia|]. split; vm_compute; discriminate.
+Qed.
+
+
+(* ================================================================== phase 4 *)
+(* ---- the three-point Gauss-Legendre rule 0, +- sqrt(3/5) (orders p = 4, 5) with its exact nodes in Q(sqrt 15): exact for
+        every polynomial with <= 6 coefficients on every interval; hence the rule the code takes is exact for degree <= p for ALL
+        orders p <= 5 (n = 4, p = 6, 7: nested radicals, still modelled) *)
+Theorem C10_gauss_legendre_three_point_rule_exact : forall P lo hi, (length P <= 6)%nat ->
+  gl_apply (c3 * c5) r3 P lo hi = (pintegral P lo hi, 0).
+Proof. exact gl3_exact. Qed.
+Theorem C10_gauss_legendre_rule_exact_upto3 : forall n D rule, (n <= 3)%nat -> gl_rule n = Some (D, rule) ->
+  forall P lo hi, (length P <= 2 * n)%nat -> gl_apply D rule P lo hi = (pintegral P lo hi, 0).
+Proof. exact gl_rule_exact3. Qed.
+Theorem C10_code_gauss_rule_exact_for_degree_p_upto5 : forall p, (1 <= p <= 5)%nat ->
+  exists D rule, gl_rule (gl_points p) = Some (D, rule) /\
+    forall P lo hi, (length P <= p + 1)%nat -> gl_apply D rule P lo hi = (pintegral P lo hi, 0).
+Proof. exact code_rule_exact_upto5. Qed.
+(* binomial closed form of the Horner evaluation in Q(sqrt D) *)
+Theorem C10_horner_in_quadratic_extension_closed_form : forall D a0 a1 a2 a3 a4 a5 m s,
+  xpeval D [a0; a1; a2; a3; a4; a5] (m, s) =
+  (a0 + a1 * m + a2 * (m*m + D*s*s) + a3 * (m*m*m + (1+1+1)*D*m*s*s) + a4 * (m*m*m*m + (1+1+1+1+1+1)*D*m*m*s*s + D*D*s*s*s*s)
+      + a5 * (m*m*m*m*m + (1+1+1+1+1+1+1+1+1+1)*D*m*m*m*s*s + (1+1+1+1+1)*D*D*m*s*s*s*s),
+   a1 * s + (1+1) * a2 * m * s + a3 * ((1+1+1)*m*m*s + D*s*s*s) + a4 * ((1+1+1+1)*m*m*m*s + (1+1+1+1)*D*m*s*s*s)
+      + a5 * ((1+1+1+1+1)*m*m*m*m*s + (1+1+1+1+1+1+1+1+1+1)*D*m*m*s*s*s + D*D*s*s*s*s*s)).
+Proof. exact xpeval6_closed. Qed.
+
+(* ---- code-shaped flat sweep from a SUCCESSFUL tensor recursion: the 1-D solver need not be total; the column-wise hypothesis is
+        only asked where the solve succeeds (sys_colwise_succ; implied by sys_colwise, hence proved for forward substitution) *)
+Theorem C10_hier_flat_follows_hier_nd : forall ss v sur,
+  Forall (fun s => s_n s <> O /\ (sys_single s \/ sys_colwise_succ s)) ss ->
+  length v = prodN (map s_n ss) ->
+  hier_nd ss v = Some sur -> hier_flat ss v = Some sur.
+Proof. exact hier_flat_follows_hier_nd. Qed.
+(* ---- Gauss-Jordan elimination of the checked solver acts column by column: solving with the matrix of right-hand sides and
+        reading column k off the result is solving with column k alone, and one fails iff the other does (any matrix with square
+        row length, any right-hand sides); the elimination loop commutes with the column projection *)
+Theorem C10_gauss_solve_acts_columnwise : forall (M : matrix) (B : list (list Qc)) len k,
+  (forall r, In r M -> length r = length M) -> (forall b, In b B -> length b = len) -> (k < len)%nat ->
+  gauss_solve M (map (fun b => [nthQ b k]) B)
+  = match gauss_solve M B with Some X => Some (map (fun x => [nthQ x k]) X) | None => None end.
+Proof. exact gauss_solve_columnwise. Qed.
+Print Assumptions C10_gauss_legendre_three_point_rule_exact.
+Print Assumptions C10_gauss_legendre_rule_exact_upto3.
+Print Assumptions C10_code_gauss_rule_exact_for_degree_p_upto5.
+Print Assumptions C10_horner_in_quadratic_extension_closed_form.
+Print Assumptions C10_hier_flat_follows_hier_nd.
+Print Assumptions C10_gauss_solve_acts_columnwise.
+
+(* non-vacuity (phase 4): the 3-point rule on x^5 + x^2 over [1/2, 2]; a 2x2 system with two right-hand-side columns *)
+Example C10_three_point_rule_nonvacuous :
+  gl_apply (c3 * c5) r3 [0; 0; 1; 0; 0; 1] (qd 1 2) (qd 2 1) = (pintegral [0; 0; 1; 0; 0; 1] (qd 1 2) (qd 2 1), 0)
+  /\ pintegral [0; 0; 1; 0; 0; 1] (qd 1 2) (qd 2 1) <> 0 /\ gl_rule 3 = Some (c3 * c5, r3).
+Proof. split; [apply gl3_exact; simpl; lia|]. split; [vm_compute; discriminate | reflexivity]. Qed.
+Example C10_gauss_columnwise_nonvacuous :
+  let M := [[qd 2 1; qd 1 1]; [qd 1 1; qd 3 1]] in let B := [[qd 1 1; qd 0 1]; [qd 0 1; qd 5 1]] in
+  exists X, gauss_solve M B = Some X /\ gauss_solve M (map (fun b => [nthQ b 1]) B) = Some (map (fun x => [nthQ x 1]) X)
+    /\ map (fun x => nthQ x 1) X = [qd (-1) 1; qd 2 1].
+Proof.
+  cbv zeta. eexists. split; [vm_compute; reflexivity|]. split; [vm_compute; reflexivity | apply veq_eq; vm_compute; reflexivity].
 Qed.
